@@ -188,7 +188,7 @@ pub fn solve_milp_lp_problem_with(
             // optimum may be labelled optimal, an incumbent is merely feasible and
             // an interrupted search without incumbent has no solution at all
             #[cfg(rooc_verif)]
-            verif_hooks::record_raw_status(s.status());
+            verif_hooks::record_raw_status(s.status(), s.stats().best_bound);
             let status = match s.status() {
                 microlp::Status::Optimal => {
                     // microlp stops at the requested relative gap measured on its own
@@ -257,14 +257,21 @@ pub mod verif_hooks {
     use std::cell::Cell;
     thread_local! {
         static LAST_RAW_STATUS: Cell<Option<&'static str>> = const { Cell::new(None) };
+        static LAST_RAW_BOUND: Cell<Option<f64>> = const { Cell::new(None) };
     }
-    pub(super) fn record_raw_status(status: microlp::Status) {
+    pub(super) fn record_raw_status(status: microlp::Status, best_bound: Option<f64>) {
+        LAST_RAW_BOUND.with(|cell| cell.set(best_bound));
         let name = match status {
             microlp::Status::Optimal => "Optimal",
             microlp::Status::Feasible => "Feasible",
             microlp::Status::Interrupted => "Interrupted",
         };
         LAST_RAW_STATUS.with(|cell| cell.set(Some(name)));
+    }
+    /// Takes (and clears) microlp's proven bound (its own objective space, without the model's constant term)
+    /// recorded by the last `solve_milp_lp_problem_with` call.
+    pub fn take_raw_bound() -> Option<f64> {
+        LAST_RAW_BOUND.with(|cell| cell.take())
     }
     /// Takes (and clears) the raw status recorded by the last `solve_milp_lp_problem_with` call.
     pub fn take_raw_status() -> Option<&'static str> {
